@@ -3,7 +3,13 @@
 //!   c03 child <plan.json> <dir>     run one plan under the LD_PRELOAD fsshim; prints one JSON line
 //!   c03 --out DIR --n N [--tier T]  generate plans (history x failing position x invalid input class
 //!                                   or storage fault), run each in a child process, check the oracle
-//!   c03 --out DIR --replay FILE
+//!   c03 --out DIR --replay FILE     (engine plan, writer plan {"wplan":..} or bulk plan {"bplan":..})
+//!   c03 wchild|bchild <plan> <dir>  children of the writer-level correspondence stream / bulk-load stream
+//! Streams: (1) engine-level direct property oracle (plans above); (2) writer-level correspondence:
+//! the real WalWriter under seeded faults vs Model/WalWriter.v, compared inside coqc (cases_<k>.v);
+//! (3) TieredEngine::bulk_load_cold_tier with invalid items.
+mod bulk;
+mod wstream;
 use kvh::rng::Rng;
 use kvh_pers::eng;
 use kvh_pers::hist::*;
@@ -130,12 +136,41 @@ fn oracle(p: &Plan, c: &ChildOut) -> Option<(String, Option<String>)> {
                 class = Some("C03-index-rejects-after-wal-append".to_string());
             }
         }
-        if class.is_none() && p.fault.contains("write:") && p.fault.contains("ftruncate:") {
-            class = Some("C03-double-fault-during-rollback".to_string());
+        if class.is_none() {
+            if let Some(alts) = phantom_alternatives(p, c) {
+                if alts.iter().any(|a| *a == c.after_restart) { class = Some(wstream::KNOWN_CLASS.to_string()) }
+            }
         }
         return Some(("collection recovered after restart differs from the acknowledged operations".into(), class));
     }
     None
+}
+
+/// Recorded class C03-rollback-failed-after-complete-frame, tightly: the plan injects a rollback fault
+/// (ftruncate or fdatasync) on one operation, that operation reported failure, every later operation
+/// failed too (poisoned writer), and the collection after restart is the specification plus a
+/// NON-EMPTY PREFIX of that operation's own log entries.  Returns the admissible restart states.
+fn phantom_alternatives(p: &Plan, c: &ChildOut) -> Option<Vec<Census>> {
+    let at = p.fault_at?;
+    if !(p.fault.contains("ftruncate:") || p.fault.contains("fdatasync:")) { return None }
+    if p.hist.cfg.metric != "euclidean" { return None }
+    if eng::is_ok(&c.steps.get(at)?.out) { return None }
+    if c.steps.iter().enumerate().skip(at + 1).any(|(i, s)| eng::is_ok(&s.out) && !matches!(s.out, Out::OkBool(false) | Out::OkCount(0)) && !matches!(p.hist.ops[i], Op::Snapshot)) { return None }
+    if p.hist.ops.iter().skip(at).any(|o| matches!(o, Op::Restart)) { return None }
+    // specification state before the faulted operation = live census observed after it (unchanged by failures)
+    let before = c.steps[at].live.clone();
+    let mut alts = vec![];
+    match &p.hist.ops[at] {
+        op @ (Op::Insert { .. } | Op::InsertBits { .. } | Op::UpdateMeta { .. }) => { let mut a = before.clone(); shadow_apply(&mut a, op, None); alts.push(a) }
+        Op::Delete { id } => { let mut a = before.clone(); a.remove(id); alts.push(a) }
+        Op::BatchDelete { ids } => {
+            let mut a = before.clone();
+            for id in ids { if a.remove(id).is_some() { alts.push(a.clone()) } }
+        }
+        _ => {}
+    }
+    alts.retain(|a| *a != before);
+    Some(alts)
 }
 
 fn special_vectors(dim: usize, metric: &str) -> Vec<(String, Vec<u32>)> {
@@ -160,7 +195,11 @@ fn gen_plans(rng: &mut Rng, n: usize, tier: &str) -> Vec<Plan> {
         let mut r = rng.fork(k as u64);
         let mut cfg = gen_cfg(&mut r, "always");
         if k % 4 == 3 { cfg.capacity = 2 } // index-full class
-        let gp = GenParams { max_ops: 9, allow_restart: k % 5 == 0, ..Default::default() };
+        // every 9th plan pairs a LATE failure (the fsync after a complete frame, or a write after the
+        // first frame of a batch) with a fault in the engine's rollback: the recorded class
+        let late_double = k % 3 == 1 && (k / 3) % 3 == 0;
+        if late_double { cfg.metric = "euclidean".into(); cfg.capacity = 64 }
+        let gp = GenParams { max_ops: 9, allow_restart: k % 5 == 0 && !late_double, ..Default::default() };
         let h = gen_history(&mut r, cfg.clone(), &gp);
         let pos = r.below(h.ops.len() as u64) as usize;
         match k % 3 {
@@ -180,7 +219,21 @@ fn gen_plans(rng: &mut Rng, n: usize, tier: &str) -> Vec<Plan> {
                 let kinds = ["write", "write", "write", "fsync", "fdatasync", "ftruncate", "rename", "open"];
                 let kind = *r.pick(&kinds);
                 let e = *r.pick(&errnos);
-                let spec = match r.below(6) {
+                let pos = if late_double {
+                    // prefer an operation that logs something: insert, or a batch delete
+                    let c: Vec<usize> = h.ops.iter().enumerate().filter(|(_, o)| matches!(o, Op::Insert { .. } | Op::BatchDelete { .. })).map(|(i, _)| i).collect();
+                    if c.is_empty() { pos } else { *r.pick(&c) }
+                } else { pos };
+                let spec = if late_double {
+                    let e2 = *r.pick(&["ENOSPC", "EIO", "EDQUOT", "EACCES"]);
+                    let e1 = *r.pick(&["ENOSPC", "EIO", "EDQUOT", "EACCES"]);
+                    let rb = if r.chance(3, 4) { format!("ftruncate:1:{}", e2) } else { format!("fdatasync:1:{}", e2) };
+                    match (&h.ops[pos], r.below(3)) {
+                        (Op::BatchDelete { .. }, 0 | 1) => format!("write:2:{},{}", e1, rb),
+                        (_, 2) => format!("write:1:{}:{},write:2:{},{}", e1, r.pick(&[1u64, 5, 17]), e1, rb),
+                        _ => format!("fsync:1:{},{}", e1, rb),
+                    }
+                } else { match r.below(6) {
                     // single fault on the n-th call
                     0 | 1 => format!("{}:{}:{}", kind, r.range(1, 3), e),
                     // persistent fault: the first 7 calls of that kind fail (outlives the retries)
@@ -193,7 +246,7 @@ fn gen_plans(rng: &mut Rng, n: usize, tier: &str) -> Vec<Plan> {
                         let t = (1..=7).map(|n| format!("ftruncate:{}:{}", n, r.pick(&errnos))).collect::<Vec<_>>().join(",");
                         if tier == "thorough" || r.chance(1, 2) { format!("write:1:{}:{},{}", e, r.pick(&[1u64, 5, 17]), format!("{},{}", w.replacen("write:1:", "write:9:", 1), t)) } else { format!("{},{}", w, t) }
                     }
-                };
+                } };
                 plans.push(Plan { hist: h, fault_at: Some(pos), fault: spec.clone(), kind: format!("fault:{}", spec) });
             }
         }
@@ -201,11 +254,35 @@ fn gen_plans(rng: &mut Rng, n: usize, tier: &str) -> Vec<Plan> {
     plans
 }
 
+fn par_map<T: Sync, R: Send>(items: &[T], f: impl Fn(usize, &T) -> R + Sync) -> Vec<R> {
+    let results: Mutex<Vec<(usize, R)>> = Mutex::new(vec![]);
+    let next = std::sync::atomic::AtomicUsize::new(0);
+    std::thread::scope(|s| {
+        for _ in 0..16 {
+            s.spawn(|| loop {
+                let j = next.fetch_add(1, std::sync::atomic::Ordering::SeqCst);
+                if j >= items.len() { break }
+                let r = f(j, &items[j]);
+                results.lock().unwrap().push((j, r));
+            });
+        }
+    });
+    let mut v = results.into_inner().unwrap();
+    v.sort_by_key(|x| x.0);
+    v.into_iter().map(|x| x.1).collect()
+}
+
+fn out_class(o: &Out) -> String {
+    match o { Out::Err(e) => format!("err:{}", e.split(':').next().unwrap_or("")), Out::OkBool(false) | Out::OkCount(0) => "noop".into(), _ => "ok".into() }
+}
+
 fn main() {
     let args: Vec<String> = std::env::args().collect();
     if args.len() >= 4 && args[1] == "child" { child(&args[2], &args[3]); return }
+    if args.len() >= 4 && args[1] == "wchild" { wstream::wchild(&args[2], &args[3]); return }
+    if args.len() >= 4 && args[1] == "bchild" { bulk::bchild(&args[2], &args[3]); return }
     let mut out = String::from("/verif/.cache/run/C03");
-    let mut n = 150usize;
+    let (mut n, mut wn, mut bn) = (150usize, 240usize, 40usize);
     let mut tier = String::from("quick");
     let mut replay: Option<String> = None;
     let mut i = 1;
@@ -213,6 +290,8 @@ fn main() {
         match args[i].as_str() {
             "--out" => { out = args[i + 1].clone(); i += 1 }
             "--n" => { n = args[i + 1].parse().unwrap(); i += 1 }
+            "--wn" => { wn = args[i + 1].parse().unwrap(); i += 1 }
+            "--bn" => { bn = args[i + 1].parse().unwrap(); i += 1 }
             "--tier" => { tier = args[i + 1].clone(); i += 1 }
             "--replay" => { replay = Some(args[i + 1].clone()); i += 1 }
             _ => {}
@@ -221,63 +300,139 @@ fn main() {
     }
     let work = PathBuf::from(&out);
     std::fs::create_dir_all(&work).unwrap();
+    for f in std::fs::read_dir(&work).unwrap().flatten() { if f.file_name().to_string_lossy().starts_with("cases_") { let _ = std::fs::remove_file(f.path()); } }
     let mut plans: Vec<Plan> = vec![];
+    let mut wplans: Vec<wstream::WPlan> = vec![];
+    let mut bplans: Vec<bulk::BPlan> = vec![];
     if let Some(p) = &replay {
         let v: serde_json::Value = serde_json::from_str(&std::fs::read_to_string(p).unwrap()).unwrap();
-        let pv = if v.get("plan").is_some() { v["plan"].clone() } else { v };
-        plans.push(serde_json::from_value(pv).unwrap());
+        if v.get("wplan").is_some() { wplans.push(serde_json::from_value(v["wplan"].clone()).unwrap()) }
+        else if v.get("bplan").is_some() { bplans.push(serde_json::from_value(v["bplan"].clone()).unwrap()) }
+        else {
+            let pv = if v.get("plan").is_some() { v["plan"].clone() } else { v };
+            plans.push(serde_json::from_value(pv).unwrap());
+        }
     } else {
         if let Ok(rd) = std::fs::read_dir("/verif/corpus/C03") {
             let mut ps: Vec<_> = rd.filter_map(|e| e.ok()).map(|e| e.path()).collect();
             ps.sort();
-            for p in ps { if let Ok(s) = std::fs::read_to_string(&p) { if let Ok(pl) = serde_json::from_str::<Plan>(&s) { plans.push(pl) } } }
+            for p in ps {
+                if let Ok(s) = std::fs::read_to_string(&p) {
+                    if let Ok(v) = serde_json::from_str::<serde_json::Value>(&s) {
+                        if v.get("wplan").is_some() { if let Ok(w) = serde_json::from_value(v["wplan"].clone()) { wplans.push(w) } }
+                        else if v.get("bplan").is_some() { if let Ok(b) = serde_json::from_value(v["bplan"].clone()) { bplans.push(b) } }
+                        else if let Ok(pl) = serde_json::from_value::<Plan>(if v.get("plan").is_some() { v["plan"].clone() } else { v }) { plans.push(pl) }
+                    }
+                }
+            }
         }
         let mut rng = Rng::from_env();
         plans.extend(gen_plans(&mut rng, n, &tier));
+        let mut wrng = rng.fork(0x57);
+        wplans.extend(wstream::gen_wplans(&mut wrng, wn, tier == "thorough"));
+        let mut brng = rng.fork(0xB1);
+        bplans.extend(bulk::gen_bplans(&mut brng, bn, &special_vectors));
     }
-    let results: Mutex<Vec<(usize, Option<ChildOut>)>> = Mutex::new(vec![]);
-    let next = std::sync::atomic::AtomicUsize::new(0);
-    std::thread::scope(|s| {
-        for _ in 0..16 {
-            s.spawn(|| loop {
-                let j = next.fetch_add(1, std::sync::atomic::Ordering::SeqCst);
-                if j >= plans.len() { break }
-                let r = run_child(&plans[j], &work, &format!("p{}", j));
-                results.lock().unwrap().push((j, r));
-            });
-        }
-    });
-    let mut results = results.into_inner().unwrap();
-    results.sort_by_key(|x| x.0);
+
+    // ---------------- stream 1: engine-level direct property oracle ----------------
+    let results = par_map(&plans, |j, p| run_child(p, &work, &format!("p{}", j)));
     let mut fails = vec![];
     let mut kinds: BTreeMap<String, u64> = BTreeMap::new();
     let mut outcome_hist: BTreeMap<String, u64> = BTreeMap::new();
-    let (mut fault_hit, mut op_failed, mut nontrivial) = (0u64, 0u64, 0u64);
+    let mut errno_hist: BTreeMap<String, u64> = BTreeMap::new();
+    let (mut fault_hit, mut op_failed) = (0u64, 0u64);
     let mut distinct = std::collections::HashSet::new();
-    for (j, r) in &results {
-        let p = &plans[*j];
+    for (j, r) in results.iter().enumerate() {
+        let p = &plans[j];
         *kinds.entry(p.kind.split(':').take(2).collect::<Vec<_>>().join(":")).or_insert(0) += 1;
+        for e in ["ENOSPC", "EIO", "EDQUOT", "EINTR", "EACCES"] { if p.fault.contains(e) { *errno_hist.entry(e.to_string()).or_insert(0) += 1 } }
         match r {
-            None => fails.push(json!({"plan_index": j, "why": "child produced no output (crash/abort)", "class": null, "plan": p})),
+            None => fails.push(json!({"stream": "engine", "plan_index": j, "why": "child produced no output (crash/abort)", "class": null, "plan": p})),
             Some(c) => {
-                for st in &c.steps { let k = match &st.out { Out::Err(e) => format!("err:{}", e.split(':').next().unwrap_or("")), _ => "ok".to_string() }; *outcome_hist.entry(k).or_insert(0) += 1; }
+                for st in &c.steps { *outcome_hist.entry(out_class(&st.out)).or_insert(0) += 1; }
                 let failed_here = c.steps.iter().any(|s| !eng::is_ok(&s.out));
-                if failed_here { op_failed += 1 }
+                if failed_here {
+                    op_failed += 1;
+                    distinct.insert(format!("E{:?}{:?}{:?}", p.hist.ops, p.fault, c.steps.iter().map(|s| out_class(&s.out)).collect::<Vec<_>>()));
+                }
                 if c.effects_in_faulted_op > 0 { fault_hit += 1 }
-                if failed_here && distinct.insert(format!("{:?}{:?}", p.kind, c.steps.iter().map(|s| &s.out).collect::<Vec<_>>())) { nontrivial += 1 }
                 if let Some((why, class)) = oracle(p, c) {
-                    fails.push(json!({"plan_index": j, "why": why, "class": class, "plan": p, "observed": c}));
+                    fails.push(json!({"stream": "engine", "plan_index": j, "why": why, "class": class, "plan": p, "observed": c}));
                 }
             }
         }
     }
+
+    // ---------------- stream 2: writer-level correspondence + writer-level oracle ----------------
+    let wres = par_map(&wplans, |j, p| wstream::run_wchild(p, &work, &format!("w{}", j), SHIM));
+    let mut wkinds: BTreeMap<String, u64> = BTreeMap::new();
+    let mut wres_hist: BTreeMap<String, u64> = BTreeMap::new();
+    let mut werrno: BTreeMap<String, u64> = BTreeMap::new();
+    let (mut w_failed_call, mut w_sys) = (0u64, 0u64);
+    let mut body: Vec<String> = vec![];
+    let mut wall = vec![];
+    let mut shards = 0usize;
+    let names = ["acked", "breaker-open", "disk-full", "permission", "poisoned", "error"];
+    for (j, r) in wres.iter().enumerate() {
+        let p = &wplans[j];
+        let kk: Vec<&str> = p.kind.split('|').collect();
+        let lab = kk.get(2).map(|l| l.split(':').next().unwrap_or("").to_string() + if l.contains('+') { "+rollback-fault" } else { "" }).unwrap_or_default();
+        *wkinds.entry(format!("{}|{}|{}", kk.first().unwrap_or(&""), kk.get(1).unwrap_or(&""), lab)).or_insert(0) += 1;
+        match r {
+            None => fails.push(json!({"stream": "writer", "plan_index": j, "why": "writer child produced no output (crash/abort)", "class": null, "wplan": p})),
+            Some(run) => {
+                let mut failed_here = false;
+                for o in &run.out.obs { let c = wstream::result_code(&o.err); *wres_hist.entry(names[c as usize].to_string()).or_insert(0) += 1; if c != 0 { failed_here = true } }
+                for s in run.sys.iter().flatten() { w_sys += 1; if s.ret < 0 { *werrno.entry(format!("{}:{}", s.kind, s.errno)).or_insert(0) += 1 } }
+                if failed_here {
+                    w_failed_call += 1;
+                    distinct.insert(format!("W{}{:?}{:?}", p.policy, run.sys.iter().map(|v| v.iter().map(wstream::sysres).collect::<Vec<_>>()).collect::<Vec<_>>(), run.out.obs.iter().map(|o| wstream::result_code(&o.err)).collect::<Vec<_>>()));
+                }
+                if let Some((why, class)) = wstream::woracle(p, run) {
+                    fails.push(json!({"stream": "writer", "plan_index": j, "why": why, "class": class, "wplan": p, "observed": wstream::shrink_summary(p, run)}));
+                }
+                body.push(wstream::case_lit(j, p, run));
+                wall.push(json!({"id": j, "wplan": p}));
+                if body.len() >= 40 {
+                    std::fs::write(work.join(format!("cases_{}.v", shards)), wstream::cases_file(&body)).unwrap();
+                    shards += 1;
+                    body.clear();
+                }
+            }
+        }
+    }
+    if !body.is_empty() { std::fs::write(work.join(format!("cases_{}.v", shards)), wstream::cases_file(&body)).unwrap(); shards += 1 }
+
+    // ---------------- stream 3: bulk_load_cold_tier with invalid items ----------------
+    let bres = par_map(&bplans, |j, p| bulk::run_bchild(p, &work, &format!("b{}", j), SHIM));
+    let mut bkinds: BTreeMap<String, u64> = BTreeMap::new();
+    let mut b_failed_item = 0u64;
+    for (j, r) in bres.iter().enumerate() {
+        let p = &bplans[j];
+        for (_, _, l) in &p.second { if !l.is_empty() { *bkinds.entry(format!("bulk:{}", l)).or_insert(0) += 1 } }
+        match r {
+            None => fails.push(json!({"stream": "bulk", "plan_index": j, "why": "bulk child produced no output (crash/abort)", "class": null, "bplan": p})),
+            Some(o) => {
+                if o.second.map(|x| x.1 > 0).unwrap_or(false) { b_failed_item += 1; distinct.insert(format!("B{:?}{:?}", p.cfg, p.second)); }
+                if let Some(why) = bulk::boracle(p, o) {
+                    fails.push(json!({"stream": "bulk", "plan_index": j, "why": why, "class": null, "bplan": p, "observed": o}));
+                }
+            }
+        }
+    }
+
     let summary = json!({
-        "plans": plans.len(), "plan_kinds": kinds, "outcomes": outcome_hist,
+        "plans": plans.len(), "plan_kinds": kinds, "outcomes": outcome_hist, "errno_in_engine_plans": errno_hist,
         "plans_with_a_failed_operation": op_failed, "fault_plans_that_reached_io": fault_hit,
-        "distinct_nontrivial": nontrivial, "failures": fails.len(),
-        "samples": plans.iter().take(2).collect::<Vec<_>>(),
+        "writer_plans": wplans.len(), "writer_plan_kinds": wkinds, "writer_results": wres_hist,
+        "writer_plans_with_a_failed_call": w_failed_call, "writer_syscalls_translated": w_sys, "writer_injected_errors": werrno,
+        "bulk_plans": bplans.len(), "bulk_invalid_items": bkinds, "bulk_plans_with_a_failed_item": b_failed_item,
+        "distinct_nontrivial": distinct.len(), "failures": fails.len(), "shards": shards,
+        "samples": [json!({"engine_plan": plans.get(1)}), json!({"writer_plan": wplans.first()})],
     });
     std::fs::write(work.join("summary.json"), serde_json::to_string_pretty(&summary).unwrap()).unwrap();
     std::fs::write(work.join("failures.json"), serde_json::to_string(&fails).unwrap()).unwrap();
-    println!("c03: {} plans, {} with a failed op, {} failures", plans.len(), op_failed, fails.len());
+    std::fs::write(work.join("all_cases.json"), serde_json::to_string(&wall).unwrap()).unwrap();
+    println!("c03: {} engine plans ({} with a failed op), {} writer plans ({} with a failed call, {} shards), {} bulk plans, {} failures",
+        plans.len(), op_failed, wplans.len(), w_failed_call, shards, bplans.len(), fails.len());
 }
